@@ -20,6 +20,8 @@ from orquestra.quantum.measurements import Measurements
 from orquestra.quantum.operators import PauliSum, PauliTerm, get_expectation_value
 from orquestra.quantum.runners.symbolic_simulator import SymbolicSimulator
 from orquestra.quantum.utils import bitstring_to_tuple
+from orquestra.quantum.wavefunction import sample_from_wavefunction
+from orquestra.quantum.distributions import create_bitstring_distribution_from_probability_distribution
 
 H = Harness("C04", ["OQ.Base.Ring", "OQ.Base.Mat", "OQ.Base.CaseEq", "OQ.Circ.Lift", "OQ.Circ.Circuit",
                     "OQ.Circ.CircuitCases", "OQ.State.Views", "OQ.State.ViewsCases"],
@@ -33,7 +35,14 @@ H = Harness("C04", ["OQ.Base.Ring", "OQ.Base.Mat", "OQ.Base.CaseEq", "OQ.Circ.Li
             "Z-type operators with dyadic coefficients - everything compared exactly), superpos (the same with SX gates: "
             "probabilities within 2^-40 where np.abs rounds, sampled count strings checked for width, support and total with "
             "a power-of-two number of samples so that measured values are exact), superpos-h (Hadamards: oracle only, 2000 "
-            "samples), measure (random asymmetric tuples of width 1-6: get_counts and get_expectation_values), zero-width "
+            "samples), wide (registers of 9-11 qubits, 12 in the thorough tier: X on the first qubit only / the last only / "
+            "alternating / a random subset, then CNOT, SWAP, CCX, CSWAP on arbitrary qubit orders and S, Z, CZ phases; the "
+            "model follows the basis state on its tuple - theorem classical_circuit_views - and compares the non-zero "
+            "amplitude, all 2^n outcome-probability keys and exact-distribution keys, sampled tuples, count strings, the "
+            "distribution computed from the measurements, exact and measured expectation values of operators with terms on "
+            "the first and the last qubit; on narrow registers the same tuple path is compared with C01's matrix mirror), "
+            "measure (random asymmetric tuples of width 1-6, and measure-wide: width 9-20 with outcomes differing only in "
+            "the first or only in the last qubits: get_counts, get_distribution and get_expectation_values), zero-width "
             "(known finding F6), invalid (non-positive sample count, operator index outside the register: must raise exactly "
             "when the model says so); non-trivial = register of at least 2 qubits whose marked/flipped qubits are not "
             "symmetric under reversal of the qubit order")
@@ -87,6 +96,35 @@ def coq_gate(name, qs):
     rows = [[ex(M[i, j]) for j in range(M.shape[1])] for i in range(M.shape[0])]
     return "OGate (G " + clist(rows, lambda r: clist(r, cg)) + " " + clist(qs, cnat) + ")"
 
+IPOW = {(1, 0): 0, (0, 1): 1, (-1, 0): 2, (0, -1): 3}
+
+def table_of(name):
+    """(perm, exps, exact rows) when the gate's matrix has one entry i^e per column (a classical gate), else None"""
+    M = mk_gate(name).matrix
+    d = M.shape[0]
+    rows = [[ex(M[i, j]) for j in range(d)] for i in range(d)]
+    perm, exps = [], []
+    for a in range(d):
+        nzr = [r for r in range(d) if rows[r][a] != (0, 0)]
+        if len(nzr) != 1 or tuple(int(x) if x.denominator == 1 else None for x in rows[nzr[0]][a]) not in IPOW:
+            return None
+        perm.append(nzr[0])
+        exps.append(IPOW[tuple(int(x) for x in rows[nzr[0]][a])])
+    return perm, exps, rows
+
+def coq_tables(gates):
+    """the circuit as table gates, and the check of every table used against the implementation's matrix"""
+    tabs = {}
+    for g, _ in gates:
+        if g not in tabs:
+            tabs[g] = table_of(g)
+            if tabs[g] is None:
+                return None, None
+    lits = clist(gates, lambda gq: f"tgate {clist(gq[1], cnat)} {clist(tabs[gq[0]][0], cnat)} {clist(tabs[gq[0]][1], cnat)}")
+    match = " && ".join(f"table_matches {cnat(len(t[0]).bit_length() - 1)} {clist(t[0], cnat)} {clist(t[1], cnat)} "
+                        f"{clist(t[2], lambda r: clist(r, cg))}" for t in tabs.values()) or "true"
+    return lits, match
+
 def involutive(qs):
     """the relative order of the listed qubits is a permutation equal to its inverse"""
     rank = [sorted(qs).index(q) for q in qs]
@@ -95,7 +133,7 @@ def involutive(qs):
 # ----------------------------------------------------------------------------- independent oracle simulation
 
 SQ = 1 / math.sqrt(2)
-ORACLE_1Q = {"X": [[0, 1], [1, 0]], "S": [[1, 0], [0, 1j]],
+ORACLE_1Q = {"X": [[0, 1], [1, 0]], "S": [[1, 0], [0, 1j]], "Z": [[1, 0], [0, -1]],
              "SX": [[0.5 + 0.5j, 0.5 - 0.5j], [0.5 - 0.5j, 0.5 + 0.5j]], "H": [[SQ, SQ], [SQ, -SQ]]}
 
 def qbit(n, i, q):
@@ -240,11 +278,52 @@ def rand_circuit(rng, n, flavour):
         gates.append(["SX" if flavour == "superpos" else "H", [rng.randrange(n)]])
     return gates
 
+def rand_op_ends(rng, n):
+    """Z-type operator with terms on the first qubit, on the last qubit, across both ends, plus random ones"""
+    coef = lambda: [rng.choice([-1, 1]) * rng.randint(1, 24), rng.randint(0, 3)]
+    terms = [coef() + [[0]], coef() + [[n - 1]], coef() + [sorted({0, n - 1, rng.randrange(n)})], coef() + [[rng.randrange(1, n - 7)]]]
+    seen = {tuple(t[2]) for t in terms}
+    for t in rand_op(rng, n):
+        if tuple(t[2]) not in seen:
+            seen.add(tuple(t[2]))
+            terms.append(t)
+    return terms[:6]
+
+def rand_wide(rng, n):
+    """a circuit of classical gates on a wide register whose state is a basis state not symmetric under reversal"""
+    pattern = rng.choice(["first", "first", "last", "alternating", "random"])
+    xs = {"first": [0], "last": [n - 1], "alternating": list(range(0, n, 2)),
+          "random": sorted(rng.sample(range(n), rng.randint(1, n - 1)))}[pattern]
+    gates = [["X", [q]] for q in xs]
+    multi = 0
+    for _ in range(rng.randint(1, 4)):
+        r = rng.random()
+        if r < 0.6 and multi < (3 if n <= 9 else 2):
+            multi += 1
+            g = rng.choice(["CNOT", "CNOT", "SWAP", "CCX", "CSWAP"])
+            k = ARITY.get(g, 2)
+            qs = rng.sample(range(n), k)
+            if rng.random() < 0.7:          # controls (or one swapped qubit) on flipped qubits, the rest anywhere
+                qs[0] = rng.choice(xs)
+                rest = [q for q in range(n) if q != qs[0]]
+                qs[1:] = rng.sample(rest, k - 1)
+            gates.append([g, qs])
+        else:
+            g = rng.choice(["S", "Z", "CZ", "X"])
+            gates.append([g, rng.sample(range(n), 2 if g == "CZ" else 1)])
+    return gates
+
 def gen(rng, tier):
     N = 360 if tier == "quick" else 9000
     if tier == "search":
         N = 1500
     yield dict(kind="zero-width", n_samples=3, seed=1)
+    widths = {"quick": [9, 9, 9, 9, 10, 10, 11], "search": [9] * 8}.get(tier)
+    if widths is None:
+        widths = [rng.choice([9] * 7 + [10] * 3 + [11] * 2) for _ in range(70)] + [12]
+    for n in widths:
+        yield dict(kind="wide", n=n, gates=rand_wide(rng, n), op=rand_op_ends(rng, n), seed=rng.randint(0, 2 ** 31 - 1),
+                   ns_few=rng.randint(2, 9), ns_many=2 ** n + rng.randint(1, 9))
     for _ in range(N):
         r = rng.random()
         seed = rng.randint(0, 2 ** 31 - 1)
@@ -261,10 +340,25 @@ def gen(rng, tier):
             yield dict(kind="superpos-h", n=n, gates=rand_circuit(rng, n, "superpos-h"), op=rand_op(rng, n), seed=seed,
                        ns_few=rng.randint(1, 2 ** n), ns_many=2000)
         elif r < 0.90:
-            w = rng.randint(1, 6)
-            pool = [[rng.randint(0, 1) for _ in range(w)] for _ in range(rng.randint(1, 5))]
+            if rng.random() < 0.7:
+                w = rng.randint(1, 6)
+                pool = [[rng.randint(0, 1) for _ in range(w)] for _ in range(rng.randint(1, 5))]
+                op = rand_op(rng, w)
+            else:
+                # wide registers: outcomes that differ only in the first or only in the last qubits
+                w = rng.choice([9, 9, 10, 11, 12, 12, 16, 17, 20])
+                base = [rng.randint(0, 1) for _ in range(w)]
+                base[0] = 1
+                pool = [base]
+                for _ in range(rng.randint(0, 4)):
+                    t = list(base)
+                    where = range(w - 8) if rng.random() < 0.6 else range(w)
+                    for q in rng.sample(where, min(len(where), rng.randint(1, 2))):
+                        t[q] ^= 1
+                    pool.append(t)
+                op = rand_op_ends(rng, w)
             shots = [rng.choice(pool) for _ in range(2 ** rng.randint(0, 5))]
-            yield dict(kind="measure", w=w, shots=shots, op=rand_op(rng, w))
+            yield dict(kind="measure", w=w, shots=shots, op=op)
         elif r < 0.93:
             yield dict(kind="zero-width", n_samples=rng.randint(1, 6), seed=seed)
         elif r < 0.965:
@@ -301,27 +395,44 @@ def real_q(x):
     z = complex(x)
     return Fraction(z.real), abs(z.imag) < 1e-12
 
+def read_measurements(m, op_obj, timeout=60):
+    """tuples, get_counts, values of get_expectation_values, get_distribution of a Measurements object"""
+    if any(not isinstance(t, (tuple, list)) for t in m.bitstrings):
+        return "err", f"non-tuple sample {[t for t in m.bitstrings if not isinstance(t, (tuple, list))][0]!r}", None, None, None
+    shots = [tuple(int(b) for b in t) for t in m.bitstrings]
+    stc, cnt = outcome(m.get_counts)
+    if stc != "ok":
+        return "err", f"get_counts raised {cnt}", None, None, None
+    stv, vals = outcome(lambda: [float(v) for v in m.get_expectation_values(op_obj).values], timeout=timeout)
+    std, md = outcome(lambda: [(tuple(int(b) for b in k), float(v)) for k, v in m.get_distribution().distribution_dict.items()],
+                      timeout=timeout)
+    return "ok", shots, {str(k): int(v) for k, v in cnt.items()}, (vals if stv == "ok" else None), (md if std == "ok" else None)
+
 def measured(sim, circuit, ns, op_obj, timeout=60):
     """run_and_measure + counts + values (or the error class)"""
     st, m = outcome(sim.run_and_measure, circuit, ns, timeout=timeout)
     if st != "ok":
-        return st, m, None, None
-    if any(not isinstance(t, (tuple, list)) for t in m.bitstrings):
-        return "err", f"non-tuple sample {[t for t in m.bitstrings if not isinstance(t, (tuple, list))][0]!r}", None, None
-    shots = [tuple(int(b) for b in t) for t in m.bitstrings]
-    stc, cnt = outcome(m.get_counts)
-    if stc != "ok":
-        return "err", f"get_counts raised {cnt}", None, None
-    stv, vals = outcome(lambda: [float(v) for v in m.get_expectation_values(op_obj).values], timeout=timeout)
-    return "ok", shots, {str(k): int(v) for k, v in cnt.items()}, (vals if stv == "ok" else None)
+        return st, m, None, None, None
+    return read_measurements(m, op_obj, timeout)
 
-def check_samples(n, shots, cnt, vals, op, psi_o, fails, label, basis_tuple=None):
-    """the oracle's reading of one measurement: widths, support, count strings, averages of eigenvalues"""
+def cdist(md):
+    return copt(md, lambda d: clist(d, lambda kv: cpair(cbits(kv[0]), cq(kv[1]))))
+
+def check_samples(n, shots, cnt, vals, op, psi_o, fails, label, basis_tuple=None, mdist="skip"):
+    """the oracle's reading of one measurement: widths, support, count strings, averages of eigenvalues,
+    the distribution computed from the measurements"""
+    if mdist != "skip":
+        if mdist is None:
+            fails.append(f"{label}: get_distribution raised")
+        else:
+            want = Counter(tuple(t) for t in shots)
+            if set(k for k, _ in mdist) != set(want) or any(abs(p - want[k] / len(shots)) > TOL for k, p in mdist):
+                fails.append(f"{label}: get_distribution {mdist[:4]} but the tuples give {[(k, c / len(shots)) for k, c in list(want.items())[:4]]}")
     for t in shots:
         if len(t) != n:
             fails.append(f"{label}: tuple {t} has length {len(t)} on a register of {n} qubits")
             return
-        if abs(psi_o[tuple_index(t)]) ** 2 < 1e-12:
+        if psi_o is not None and abs(psi_o[tuple_index(t)]) ** 2 < 1e-12:
             fails.append(f"{label}: sampled tuple {t} has zero probability")
             return
         if basis_tuple is not None and tuple(t) != tuple(basis_tuple):
@@ -408,15 +519,15 @@ def run_state(inp):
     basis_tuple = tuple(qbit(n, nz[0], q) for q in range(n)) if len(nz) == 1 else None
     meas = {}
     for label, ns in (("few", inp["ns_few"]), ("many", inp["ns_many"])):
-        stm, shots, cnt, vals = measured(sim, circuit, ns, op_obj)
+        stm, shots, cnt, vals, md = measured(sim, circuit, ns, op_obj)
         if stm != "ok":
             fails.append(f"run_and_measure({ns}) raised {shots}")
             meas[label] = None
             continue
         if len(shots) != ns:
             fails.append(f"run_and_measure({ns}) returned {len(shots)} tuples")
-        check_samples(n, shots, cnt, vals, op, psi_o, fails, f"{label} ({ns} samples)", basis_tuple)
-        meas[label] = (ns, shots, cnt, vals)
+        check_samples(n, shots, cnt, vals, op, psi_o, fails, f"{label} ({ns} samples)", basis_tuple, mdist=md)
+        meas[label] = (ns, shots, cnt, vals, md)
     # model side
     chk = None
     if kind != "superpos-h":
@@ -429,15 +540,19 @@ def run_state(inp):
                  f"exact_values_eqb {cnat(n)} psi {cop(op)} {clist(per_term, lambda v: copt(v, cq))} {copt(total, cq)}"]
         if total is not None:
             parts.append(f"dist_average_eqb {cnat(n)} psi {cop(op)} {cq(total)}")
+        tl, tm = coq_tables(gates)
+        if tl is not None:
+            parts.append(f"{tm} && basis_path_eqb {cnat(n)} {tl} psi")
         for label in ("few", "many"):
             if meas[label] is None:
                 parts.append("false")
                 continue
-            ns, shots, cnt, vals = meas[label]
+            ns, shots, cnt, vals, md = meas[label]
             cv = copt(vals, lambda vs: clist(vs, cq))
             if basis_tuple is not None:
                 parts.append(f"measure_basis_eqb {cnat(n)} psi {cz(ns)} (Some {clist(shots, cbits)}) {ccounts(cnt)}")
                 parts.append(f"measured_eqb {clist(shots, cbits)} {cop(op)} {ccounts(cnt)} {cv}")
+                parts.append(f"measured_dist_eqb {clist(shots, cbits)} {cdist(md)}")
             else:
                 parts.append(f"support_eqb {cnat(n)} psi {ccounts(cnt)} {cz(ns)}")
                 parts.append(f"values_from_counts_eqb {ccounts(cnt)} {cop(op)} {cv}")
@@ -450,24 +565,125 @@ def run_state(inp):
     return dict(chk=chk, oracle_ok=not fails, oracle_msg="; ".join(fails[:3]), kind=k2 + f"-w{n}",
                 nontrivial=asym(n, gates, op))
 
+def run_wide(inp):
+    """registers of 9-12 qubits, circuits of classical gates: the model follows the tuple, no 2^n x 2^n matrix"""
+    n, gates, op, kind = inp["n"], inp["gates"], inp["op"], inp["kind"]
+    circuit = build(inp)
+    sim = SymbolicSimulator(seed=inp["seed"])
+    op_obj = pauli(op)
+    fails = []
+    psi_o = oracle_state(n, gates)
+    probs_o = np.abs(psi_o) ** 2
+    nzo = [i for i in range(2 ** n) if probs_o[i] > 1e-12]
+    basis_tuple = tuple(qbit(n, nzo[0], q) for q in range(n))
+    st, wf = outcome(sim.get_wavefunction, circuit, timeout=300)
+    if st != "ok":
+        return dict(chk="false", oracle_ok=False, oracle_msg=f"get_wavefunction raised {wf}", kind=kind)
+    amps = np.asarray(wf.amplitudes).reshape(-1)
+    if len(amps) != 2 ** n or np.max(np.abs(amps - psi_o)) > TOL:
+        nz_i = [int(i) for i in np.nonzero(amps)[0]]
+        fails.append(f"state vector is non-zero at {nz_i[:4]}, the bitwise simulation at {nzo} (tuple {basis_tuple})")
+    amps_nz = [(int(i), ex(amps[i])) for i in np.nonzero(amps)[0]]
+    # get_outcome_probs
+    oprobs = wf.get_outcome_probs()
+    okeys = [str(k) for k in oprobs.keys()]
+    ovals = [float(v) for v in oprobs.values()]
+    for key, p in zip(okeys, ovals):
+        t = bitstring_to_tuple(key)
+        if len(t) != n or abs(probs_o[tuple_index(t)] - p) > TOL:
+            fails.append(f"get_outcome_probs[{key!r}] = {p}: as a tuple {t} the probability is {probs_o[tuple_index(t)] if len(t) == n else '?'}")
+            break
+    o_nz = [(k, Fraction(p)) for k, p in enumerate(ovals) if p != 0]
+    # exact distribution (through the runner's method on 9 qubits, through the function it calls above)
+    if n <= 9:
+        std, dist = outcome(lambda: sim.get_measurement_outcome_distribution(circuit, None).distribution_dict, timeout=300)
+    else:
+        std, dist = outcome(lambda: create_bitstring_distribution_from_probability_distribution(wf.get_probabilities()).distribution_dict, timeout=300)
+    if std != "ok":
+        return dict(chk="false", oracle_ok=False, oracle_msg=f"exact distribution raised {dist}", kind=kind)
+    dkeys = [tuple(int(b) for b in k) for k in dist.keys()]
+    dvals = [float(v) for v in dist.values()]
+    if len(dkeys) != 2 ** n:
+        fails.append(f"exact distribution has {len(dkeys)} entries")
+    for t, p in zip(dkeys, dvals):
+        if len(t) != n or abs(probs_o[tuple_index(t)] - p) > TOL:
+            fails.append(f"exact distribution[{t}] = {p}, bitwise simulation {probs_o[tuple_index(t)] if len(t) == n else '?'}")
+            break
+    d_nz = [(k, Fraction(p)) for k, p in enumerate(dvals) if p != 0]
+    # exact expectation values
+    per_term = []
+    for k, term in enumerate(op_obj.terms):
+        stt, v = outcome(get_expectation_value, term, wf, timeout=300)
+        q, real = real_q(v) if stt == "ok" else (None, False)
+        per_term.append(q)
+        want = eig([op[k]], lambda qb: basis_tuple[qb])[0]
+        if stt != "ok" or not real or abs(float(q) - want) > TOL:
+            fails.append(f"exact <term {k} on qubits {op[k][2]}> = {v}, eigenvalue on the tuple {basis_tuple}: {want}")
+    if n <= 9:
+        stt, tot = outcome(sim.get_exact_expectation_values, circuit, op_obj, timeout=300)
+    else:
+        stt, tot = outcome(lambda: get_expectation_value(op_obj, wf).real, timeout=300)
+    total = Fraction(float(tot)) if stt == "ok" else None
+    if total is None or abs(float(total) - sum(eig(op, lambda qb: basis_tuple[qb]))) > TOL:
+        fails.append(f"exact expectation {tot}, eigenvalue on the tuple {sum(eig(op, lambda qb: basis_tuple[qb]))}")
+    # sampling: few samples through run_and_measure; many through it on 9 qubits, else through the function it calls
+    meas = {}
+    for label, ns in (("few", inp["ns_few"]), ("many", inp["ns_many"])):
+        if label == "few" or n <= 9:
+            stm, shots, cnt, vals, md = measured(sim, circuit, ns, op_obj, timeout=300)
+        else:
+            stm, m = outcome(lambda: Measurements(sample_from_wavefunction(wf, ns, inp["seed"])), timeout=300)
+            stm, shots, cnt, vals, md = read_measurements(m, op_obj, 300) if stm == "ok" else (stm, m, None, None, None)
+        if stm != "ok":
+            fails.append(f"{label}: sampling {ns} raised {shots}")
+            meas[label] = None
+            continue
+        if len(shots) != ns:
+            fails.append(f"{label}: asked for {ns} samples, got {len(shots)}")
+        check_samples(n, shots, cnt, vals, op, psi_o, fails, f"{label} ({ns} samples)", basis_tuple, mdist=md)
+        meas[label] = (ns, shots, cnt, vals, md)
+    tl, tm = coq_tables(gates)
+    parts = [tm, f"wide_amps_eqb st {clist(amps_nz, lambda kv: cpair(cnat(kv[0]), cg(kv[1])))}",
+             f"wide_outcome_probs_eqb {cnat(n)} st {clist(okeys, cstring)} {clist(o_nz, lambda kv: cpair(cnat(kv[0]), cq(kv[1])))}",
+             f"wide_exact_dist_eqb {cnat(n)} st {clist(dkeys, lambda t: cstring(''.join(str(b) for b in t)))} "
+             f"{clist(d_nz, lambda kv: cpair(cnat(kv[0]), cq(kv[1])))}"]
+    if None not in per_term and total is not None:
+        parts.append(f"basis_values_eqb st {cop(op)} {clist(per_term, cq)} {cq(total)}")
+    else:
+        parts.append("false")
+    for label in ("few", "many"):
+        if meas[label] is None:
+            parts.append("false")
+            continue
+        ns, shots, cnt, vals, md = meas[label]
+        parts.append(f"measure_index_eqb {cnat(n)} st {cz(ns)} (Some {clist(shots, cbits)}) {ccounts(cnt)}")
+        if label == "few":       # the many-sample tuples are all equal to the few-sample ones: pass the counts only
+            parts.append(f"measured_eqb {clist(shots, cbits)} {cop(op)} {ccounts(cnt)} {copt(vals, lambda vs: clist(vs, cq))}")
+            parts.append(f"measured_dist_eqb {clist(shots, cbits)} {cdist(md)}")
+        else:
+            parts.append(f"values_from_counts_eqb {ccounts(cnt)} {cop(op)} {copt(vals, lambda vs: clist(vs, cq))}")
+    chk = f"(let st := basis_path {cnat(n)} {tl} in " + " && ".join(parts) + ")"
+    return dict(chk=chk, oracle_ok=not fails, oracle_msg="; ".join(fails[:3]), kind=f"wide-w{n}", nontrivial=asym(n, gates, op))
+
 def run_case(inp):
     kind = inp["kind"]
+    if kind == "wide":
+        return run_wide(inp)
     if kind in ("basis", "superpos", "superpos-h"):
         return run_state(inp)
     if kind == "measure":
         w, shots, op = inp["w"], [tuple(t) for t in inp["shots"]], inp["op"]
         m = Measurements(list(shots))
-        st, cnt = outcome(m.get_counts)
-        stv, vals = outcome(lambda: [float(v) for v in m.get_expectation_values(pauli(op)).values], timeout=30)
+        st, _, cnt, vals, md = read_measurements(m, pauli(op), timeout=30)
         fails = []
         if st != "ok":
-            return dict(chk="false", oracle_ok=False, oracle_msg=f"get_counts raised {cnt}", kind=kind)
-        cnt = {str(k): int(v) for k, v in cnt.items()}
-        check_samples(w, shots, cnt, vals if stv == "ok" else None, op, np.ones(2 ** w), fails, "measurements")
-        cv = copt(vals if stv == "ok" else None, lambda vs: clist(vs, cq))
-        chk = f"measured_eqb {clist(shots, cbits)} {cop(op)} {ccounts(cnt)} {cv}"
+            return dict(chk="false", oracle_ok=False, oracle_msg=f"measurements: {_}", kind=kind)
+        check_samples(w, shots, cnt, vals, op, None, fails, "measurements", mdist=md)
+        cv = copt(vals, lambda vs: clist(vs, cq))
+        chk = (f"measured_eqb {clist(shots, cbits)} {cop(op)} {ccounts(cnt)} {cv} && "
+               f"measured_dist_eqb {clist(shots, cbits)} {cdist(md)}")
         distinct = len(set(shots))
-        return dict(chk=chk, oracle_ok=not fails, oracle_msg="; ".join(fails[:3]), kind=kind,
+        return dict(chk=chk, oracle_ok=not fails, oracle_msg="; ".join(fails[:3]), kind=kind + ("-wide" if w >= 9 else ""),
                     nontrivial=w >= 2 and any(tuple(reversed(t)) != t for t in shots) and distinct >= 1)
     if kind == "zero-width":
         circuit = Circuit()
@@ -502,7 +718,7 @@ def run_case(inp):
         sim = SymbolicSimulator(seed=inp["seed"])
         op_obj = pauli(op)
         st, v = outcome(sim.get_exact_expectation_values, circuit, op_obj, timeout=30)
-        stm, shots, cnt, vals = measured(sim, circuit, inp["ns"], op_obj)
+        stm, shots, cnt, vals, _ = measured(sim, circuit, inp["ns"], op_obj)
         ok = st == "err" and v == "ValueError" and stm == "ok" and vals is None
         if not ok:
             return dict(chk="false", oracle_ok=False, kind=kind,
